@@ -543,7 +543,8 @@ impl Typer {
                     );
                     return self.error_expr(astptr);
                 };
-                let inst_ty = self.inst_ty(&func_ty);
+                let in_scope = local_env.tparam_trait_bounds_snapshot();
+                let inst_ty = self.inst_fn_ty(genv, in_scope, hint, &func_ty);
                 tast::Expr::EVar {
                     name: hint.to_string(),
                     ty: inst_ty,
@@ -1954,7 +1955,10 @@ impl Typer {
                 // signature is known, by inference otherwise. (Inferring first and checking again
                 // made nested calls f(f(f(…))) cost 2^depth.)
                 let known_func_ty = lookup_function_type_by_hint(genv, name.as_str());
-                let known_inst_ty = known_func_ty.as_ref().map(|func_ty| self.inst_ty(func_ty));
+                let in_scope = local_env.tparam_trait_bounds_snapshot();
+                let known_inst_ty = known_func_ty
+                    .as_ref()
+                    .map(|func_ty| self.inst_fn_ty(genv, in_scope, name.as_str(), func_ty));
                 let param_tys = match &known_inst_ty {
                     Some(tast::Ty::TFunc { params, .. })
                         if params.len() == args.len() && !params.is_empty() =>
